@@ -1,0 +1,196 @@
+//go:build verif
+
+package cluster
+
+// Machine-checked contracts for the cluster membership event tracker
+// (property C34). Comment-only file: it adds no code to the package. Read by
+// /verif/govc (see /verif/DESIGN.md).
+
+// ---------------------------------------------------------------------------
+//@ property C34
+//
+// The four notification handlers run under eventsLock (a monitor), so "any
+// history, duplicates and reorderings included" = every handler preserves the
+// invariant below for every notification and every tracker state.
+//
+// Ghost history, for one arbitrary node address `probe` (never assigned, so
+// everything proved holds for every address):
+//   joinedSince  NodeJoined(probe) events emitted since the last NodeLeft(probe)
+//   leftSince    NodeLeft(probe) events emitted since the last NodeJoined(probe)
+//   pJ, pL       probe is a member of nodeJoinedEventsFilter / nodeLeftEventsFilter
+// The two filters are goset.Set values (a dependency): each Contains/Add/Remove
+// call on them is tied to pJ/pL by a site clause (assumption: goset implements a
+// mathematical set and the two fields hold distinct sets); the "cover" rule of
+// govc demands that every such call in a function under contract is annotated,
+// and the structural obligations below that no other function touches them.
+//@ ghost var probe string
+//@ ghost var pJ bool
+//@ ghost var pL bool
+//@ ghost var joinedSince int
+//@ ghost var leftSince int
+
+// the local node's own peers address (PeersAddress is a pure function of the node)
+//@ spec ufunc self_addr(n *discovery.Node) string
+
+//@ spec func inv_left(ls int, pl bool) bool = 0 <= ls && ls <= 1 && (ls == 1 ==> pl)
+//@ spec func inv_joined(js int, pj bool) bool = 0 <= js && js <= 1 && (js == 1 ==> pj)
+//@ spec func ev_inv(js int, ls int, pj bool, pl bool) bool = inv_left(ls, pl) && inv_joined(js, pj)
+//@ spec func tr_wf(x *cluster) bool = x.node != nil && x.nodeJoinTimestamps != nil && x.nodeLeftTimestamps != nil && x.rebalanceJoinNodeEpochs != nil && x.rebalanceLeftNodeEpochs != nil && x.rebalanceStartSeen != nil && x.rebalanceCompleteSeen != nil && x.nodeJoinTimestamps != x.nodeLeftTimestamps && x.rebalanceJoinNodeEpochs != x.rebalanceLeftNodeEpochs && x.rebalanceStartSeen != x.rebalanceCompleteSeen && !has(x.nodeJoinTimestamps, self_addr(x.node))
+
+// the tracker state has exactly these writers / users
+//@ structural mapwriters cluster.nodeJoinedEventsFilter: New, (*cluster).trackNodeJoinEvent, (*cluster).trackNodeLeftEvent, (*cluster).emitNodeLeftLocked, (*cluster).emitNodeJoinedLocked
+//@ structural mapwriters cluster.nodeLeftEventsFilter: New, (*cluster).trackNodeLeftEvent, (*cluster).emitNodeLeftLocked
+//@ structural mapwriters cluster.nodeJoinTimestamps: New, (*cluster).trackNodeJoinEvent, (*cluster).emitPendingJoinForEpochLocked
+//@ structural mapwriters cluster.nodeLeftTimestamps: New, (*cluster).trackNodeLeftEvent, (*cluster).emitPendingLeftForEpochLocked, (*cluster).emitOverdueNodeLeft
+//@ structural mapwriters cluster.rebalanceJoinNodeEpochs: New, (*cluster).trackNodeJoinEvent, (*cluster).assignJoinEpochLocked, (*cluster).emitPendingJoinForEpochLocked
+//@ structural mapwriters cluster.rebalanceLeftNodeEpochs: New, (*cluster).trackNodeLeftEvent, (*cluster).assignLeftEpochLocked, (*cluster).emitPendingLeftForEpochLocked, (*cluster).emitOverdueNodeLeft
+//@ structural mapwriters cluster.rebalanceStartSeen: New, (*cluster).processRebalanceStart
+//@ structural mapwriters cluster.rebalanceCompleteSeen: New, (*cluster).processRebalanceComplete
+//@ structural writers cluster.rebalanceJoinLatestEpoch: (*cluster).processRebalanceStart
+//@ structural writers cluster.rebalanceLeftLatestEpoch: (*cluster).processRebalanceStart
+//@ structural writers cluster.node: New
+
+// NodeLeft / NodeJoined events are built only by the two emit functions, and
+// those are reached only through the epoch gate or the timeout path
+//@ structural callers (*cluster).emitNodeLeftLocked: (*cluster).emitPendingLeftForEpochLocked, (*cluster).emitOverdueNodeLeft
+//@ structural callers (*cluster).emitNodeJoinedLocked: (*cluster).emitPendingJoinForEpochLocked
+//@ structural callers (*cluster).emitOverdueNodeLeft: (*cluster).trackNodeLeftEvent
+//@ structural callers (*cluster).emitPendingLeftForEpochLocked: (*cluster).trackNodeLeftEvent, (*cluster).processRebalanceStart, (*cluster).processRebalanceComplete
+
+// sendEventLocked only pushes on the events channel (or drops with a warning)
+//@ func (*cluster).sendEventLocked(x, e)
+//@   preserve cluster.nodeJoinedEventsFilter, cluster.nodeLeftEventsFilter, cluster.nodeJoinTimestamps, cluster.nodeLeftTimestamps, cluster.rebalanceJoinNodeEpochs, cluster.rebalanceLeftNodeEpochs, cluster.rebalanceStartSeen, cluster.rebalanceCompleteSeen, cluster.rebalanceJoinLatestEpoch, cluster.rebalanceLeftLatestEpoch, cluster.node
+//@   ensures tracker-untouched: x.node == old(x.node) && x.nodeJoinTimestamps == old(x.nodeJoinTimestamps) && x.nodeLeftTimestamps == old(x.nodeLeftTimestamps) && x.rebalanceJoinNodeEpochs == old(x.rebalanceJoinNodeEpochs) && x.rebalanceLeftNodeEpochs == old(x.rebalanceLeftNodeEpochs) && x.rebalanceStartSeen == old(x.rebalanceStartSeen) && x.rebalanceCompleteSeen == old(x.rebalanceCompleteSeen) && x.nodeJoinedEventsFilter == old(x.nodeJoinedEventsFilter) && x.nodeLeftEventsFilter == old(x.nodeLeftEventsFilter)
+//@   ensures maps-untouched: only_changes(x.nodeJoinTimestamps) && only_changes(x.rebalanceJoinNodeEpochs) && only_changes(x.rebalanceCompleteSeen)
+
+// ---- emission: at most one event per arrival / departure -----------------------
+//@ func (*cluster).emitNodeJoinedLocked(x, node, timestamp)
+//@   requires tracker: tr_wf(x)
+//@   requires left-invariant: inv_left(leftSince, pL)
+//@   requires joined-invariant: inv_joined(joinedSince, pJ)
+//@   requires never-self: node != self_addr(x.node)
+//@   preserve cluster.nodeJoinedEventsFilter, cluster.nodeLeftEventsFilter, cluster.nodeJoinTimestamps, cluster.nodeLeftTimestamps, cluster.rebalanceJoinNodeEpochs, cluster.rebalanceLeftNodeEpochs, cluster.rebalanceStartSeen, cluster.rebalanceCompleteSeen, cluster.rebalanceJoinLatestEpoch, cluster.rebalanceLeftLatestEpoch, cluster.node
+//@   at call 1 of invoke Contains assert joined-filter: arg0 == x.nodeJoinedEventsFilter && arg1_0 == node
+//@   at call 1 of invoke Contains assume arg1_0 == probe ==> result == pJ
+//@   at call 1 of invoke Add assert joined-filter: arg0 == x.nodeJoinedEventsFilter && arg1 == node
+//@   at call 1 of invoke Add ghost pJ = pJ || arg1 == probe
+//@   at call 1 of (*cluster).sendEventLocked assert one-joined-per-arrival: node == probe ==> joinedSince == 0
+//@   at call 1 of (*cluster).sendEventLocked assert never-reports-itself: node != self_addr(x.node)
+//@   at call 1 of (*cluster).sendEventLocked ghost joinedSince = ite(node == probe, joinedSince + 1, joinedSince)
+//@   at call 1 of (*cluster).sendEventLocked ghost leftSince = ite(node == probe, 0, leftSince)
+//@   ensures keeps-left-invariant: inv_left(leftSince, pL)
+//@   ensures keeps-joined-invariant: inv_joined(joinedSince, pJ)
+//@   ensures tracker-untouched: tr_wf(x) && x.node == old(x.node) && x.nodeJoinTimestamps == old(x.nodeJoinTimestamps) && x.rebalanceJoinNodeEpochs == old(x.rebalanceJoinNodeEpochs) && x.rebalanceCompleteSeen == old(x.rebalanceCompleteSeen)
+
+//@ func (*cluster).emitNodeLeftLocked(x, node, timestamp)
+//@   requires tracker: tr_wf(x)
+//@   requires left-invariant: inv_left(leftSince, pL)
+//@   requires joined-invariant: inv_joined(joinedSince, pJ)
+//@   preserve cluster.nodeJoinedEventsFilter, cluster.nodeLeftEventsFilter, cluster.nodeJoinTimestamps, cluster.nodeLeftTimestamps, cluster.rebalanceJoinNodeEpochs, cluster.rebalanceLeftNodeEpochs, cluster.rebalanceStartSeen, cluster.rebalanceCompleteSeen, cluster.rebalanceJoinLatestEpoch, cluster.rebalanceLeftLatestEpoch, cluster.node
+//@   at call 1 of invoke Remove assert joined-filter: arg0 == x.nodeJoinedEventsFilter && arg1 == node
+//@   at call 1 of invoke Remove ghost pJ = pJ && arg1 != probe
+//@   at call 1 of invoke Contains assert left-filter: arg0 == x.nodeLeftEventsFilter && arg1_0 == node
+//@   at call 1 of invoke Contains assume arg1_0 == probe ==> result == pL
+//@   at call 1 of invoke Add assert left-filter: arg0 == x.nodeLeftEventsFilter && arg1 == node
+//@   at call 1 of invoke Add ghost pL = pL || arg1 == probe
+//@   at call 1 of (*cluster).sendEventLocked assert one-left-per-departure: node == probe ==> leftSince == 0
+//@   at call 1 of (*cluster).sendEventLocked ghost leftSince = ite(node == probe, leftSince + 1, leftSince)
+//@   at call 1 of (*cluster).sendEventLocked ghost joinedSince = ite(node == probe, 0, joinedSince)
+//@   ensures keeps-left-invariant: inv_left(leftSince, pL)
+//@   ensures keeps-joined-invariant: inv_joined(joinedSince, pJ)
+//@   ensures tracker-untouched: tr_wf(x) && x.node == old(x.node) && x.nodeLeftTimestamps == old(x.nodeLeftTimestamps) && x.rebalanceLeftNodeEpochs == old(x.rebalanceLeftNodeEpochs) && x.rebalanceCompleteSeen == old(x.rebalanceCompleteSeen)
+
+// ---- the epoch gate ---------------------------------------------------------------
+//@ func (*cluster).emitPendingJoinForEpochLocked(x, epoch)
+//@   requires tracker: tr_wf(x)
+//@   requires left-invariant: inv_left(leftSince, pL)
+//@   requires joined-invariant: inv_joined(joinedSince, pJ)
+//@   requires epoch-complete: has(x.rebalanceCompleteSeen, epoch)
+//@   loop 1 invariant keeps: tr_wf(x) && ev_inv(joinedSince, leftSince, pJ, pL) && x.node == old(x.node) && x.nodeJoinTimestamps == old(x.nodeJoinTimestamps) && x.rebalanceJoinNodeEpochs == old(x.rebalanceJoinNodeEpochs)
+//@   at call 1 of (*cluster).emitNodeJoinedLocked assert only-this-epoch: x.rebalanceJoinNodeEpochs[arg1] == epoch && has(x.nodeJoinTimestamps, arg1)
+//@   ensures keeps-tracker: tr_wf(x)
+//@   ensures keeps-left-invariant: inv_left(leftSince, pL)
+//@   ensures keeps-joined-invariant: inv_joined(joinedSince, pJ)
+
+//@ func (*cluster).emitPendingLeftForEpochLocked(x, epoch)
+//@   requires tracker: tr_wf(x)
+//@   requires left-invariant: inv_left(leftSince, pL)
+//@   requires joined-invariant: inv_joined(joinedSince, pJ)
+//@   requires epoch-complete: has(x.rebalanceCompleteSeen, epoch)
+//@   loop 1 invariant keeps: tr_wf(x) && ev_inv(joinedSince, leftSince, pJ, pL) && x.node == old(x.node) && x.nodeLeftTimestamps == old(x.nodeLeftTimestamps) && x.rebalanceLeftNodeEpochs == old(x.rebalanceLeftNodeEpochs)
+//@   at call 1 of (*cluster).emitNodeLeftLocked assert only-this-epoch: x.rebalanceLeftNodeEpochs[arg1] == epoch && has(x.nodeLeftTimestamps, arg1)
+//@   ensures keeps-tracker: tr_wf(x)
+//@   ensures keeps-left-invariant: inv_left(leftSince, pL)
+//@   ensures keeps-joined-invariant: inv_joined(joinedSince, pJ)
+
+// the timeout path: only a still-pending departure is emitted
+//@ func (*cluster).emitOverdueNodeLeft(x, node)
+//@   requires tracker: tr_wf(x)
+//@   requires left-invariant: inv_left(leftSince, pL)
+//@   requires joined-invariant: inv_joined(joinedSince, pJ)
+//@   preserve cluster.nodeJoinedEventsFilter, cluster.nodeLeftEventsFilter, cluster.nodeJoinTimestamps, cluster.nodeLeftTimestamps, cluster.rebalanceJoinNodeEpochs, cluster.rebalanceLeftNodeEpochs, cluster.rebalanceStartSeen, cluster.rebalanceCompleteSeen, cluster.rebalanceJoinLatestEpoch, cluster.rebalanceLeftLatestEpoch, cluster.node
+//@   at call 1 of (*cluster).emitNodeLeftLocked assert only-pending: has(x.nodeLeftTimestamps, arg1) && arg1 == node
+//@   ensures keeps-tracker: tr_wf(x)
+//@   ensures keeps-left-invariant: inv_left(leftSince, pL)
+//@   ensures keeps-joined-invariant: inv_joined(joinedSince, pJ)
+//@   ensures no-longer-pending: !has(x.nodeLeftTimestamps, node)
+
+// ---- the four notification handlers ---------------------------------------------------
+//@ func (*cluster).trackNodeJoinEvent(x, ev)
+//@   requires tracker: tr_wf(x)
+//@   requires left-invariant: inv_left(leftSince, pL)
+//@   requires joined-invariant: inv_joined(joinedSince, pJ)
+//@   preserve cluster.nodeJoinedEventsFilter, cluster.nodeLeftEventsFilter, cluster.nodeJoinTimestamps, cluster.nodeLeftTimestamps, cluster.rebalanceJoinNodeEpochs, cluster.rebalanceLeftNodeEpochs, cluster.rebalanceStartSeen, cluster.rebalanceCompleteSeen, cluster.rebalanceJoinLatestEpoch, cluster.rebalanceLeftLatestEpoch, cluster.node
+//@   at call 1 of (*Node).PeersAddress assume result == self_addr(x.node)
+//@   at call 1 of invoke Contains assert joined-filter: arg0 == x.nodeJoinedEventsFilter
+//@   at call 1 of invoke Contains assume arg1_0 == probe ==> result == pJ
+//@   ensures keeps-tracker: tr_wf(x)
+//@   ensures keeps-left-invariant: inv_left(leftSince, pL)
+//@   ensures keeps-joined-invariant: inv_joined(joinedSince, pJ)
+//@   ensures self-is-ignored: ev.NodeJoin == self_addr(x.node) ==> joinedSince == old(joinedSince) && leftSince == old(leftSince)
+
+//@ func (*cluster).trackNodeLeftEvent(x, ev)
+//@   requires tracker: tr_wf(x)
+//@   requires left-invariant: inv_left(leftSince, pL)
+//@   requires joined-invariant: inv_joined(joinedSince, pJ)
+//@   preserve cluster.nodeJoinedEventsFilter, cluster.nodeLeftEventsFilter, cluster.nodeJoinTimestamps, cluster.nodeLeftTimestamps, cluster.rebalanceJoinNodeEpochs, cluster.rebalanceLeftNodeEpochs, cluster.rebalanceStartSeen, cluster.rebalanceCompleteSeen, cluster.rebalanceJoinLatestEpoch, cluster.rebalanceLeftLatestEpoch, cluster.node
+//@   at call 1 of invoke Remove assert joined-filter: arg0 == x.nodeJoinedEventsFilter
+//@   at call 1 of invoke Remove ghost pJ = pJ && arg1 != probe
+//@   at call 1 of invoke Contains assert left-filter: arg0 == x.nodeLeftEventsFilter
+//@   at call 1 of invoke Contains assume arg1_0 == probe ==> result == pL
+//@   at call 1 of AfterFunc assert timeout-is-the-configured-bound: arg0 == nodeLeftEmitTimeout
+//@   ensures keeps-tracker: tr_wf(x)
+//@   ensures keeps-left-invariant: inv_left(leftSince, pL)
+//@   ensures keeps-joined-invariant: inv_joined(joinedSince, pJ)
+
+//@ func (*cluster).processRebalanceStart(x, ev)
+//@   requires tracker: tr_wf(x)
+//@   requires left-invariant: inv_left(leftSince, pL)
+//@   requires joined-invariant: inv_joined(joinedSince, pJ)
+//@   preserve cluster.nodeJoinedEventsFilter, cluster.nodeLeftEventsFilter, cluster.nodeJoinTimestamps, cluster.nodeLeftTimestamps, cluster.rebalanceJoinNodeEpochs, cluster.rebalanceLeftNodeEpochs, cluster.rebalanceStartSeen, cluster.rebalanceCompleteSeen, cluster.rebalanceJoinLatestEpoch, cluster.rebalanceLeftLatestEpoch, cluster.node
+//@   ensures keeps-tracker: tr_wf(x)
+//@   ensures keeps-left-invariant: inv_left(leftSince, pL)
+//@   ensures keeps-joined-invariant: inv_joined(joinedSince, pJ)
+
+//@ func (*cluster).processRebalanceComplete(x, ev)
+//@   requires tracker: tr_wf(x)
+//@   requires left-invariant: inv_left(leftSince, pL)
+//@   requires joined-invariant: inv_joined(joinedSince, pJ)
+//@   preserve cluster.nodeJoinedEventsFilter, cluster.nodeLeftEventsFilter, cluster.nodeJoinTimestamps, cluster.nodeLeftTimestamps, cluster.rebalanceJoinNodeEpochs, cluster.rebalanceLeftNodeEpochs, cluster.rebalanceStartSeen, cluster.rebalanceCompleteSeen, cluster.rebalanceJoinLatestEpoch, cluster.rebalanceLeftLatestEpoch, cluster.node
+//@   ensures keeps-tracker: tr_wf(x)
+//@   ensures keeps-left-invariant: inv_left(leftSince, pL)
+//@   ensures keeps-joined-invariant: inv_joined(joinedSince, pJ)
+
+//@ func (*cluster).assignJoinEpochLocked(x, epoch)
+//@   requires tr_wf(x)
+//@   loop 1 invariant keeps: tr_wf(x) && x.node == old(x.node) && x.nodeJoinTimestamps == old(x.nodeJoinTimestamps) && x.rebalanceJoinNodeEpochs == old(x.rebalanceJoinNodeEpochs)
+//@   loop 1 invariant assigns-only-this-epoch: forall n string :: has(x.rebalanceJoinNodeEpochs, n) ==> (old(has(x.rebalanceJoinNodeEpochs, n)) && x.rebalanceJoinNodeEpochs[n] == old(x.rebalanceJoinNodeEpochs[n])) || x.rebalanceJoinNodeEpochs[n] == epoch
+//@   ensures keeps: tr_wf(x)
+//@   ensures assigns-only-this-epoch: forall n string :: has(x.rebalanceJoinNodeEpochs, n) ==> (old(has(x.rebalanceJoinNodeEpochs, n)) && x.rebalanceJoinNodeEpochs[n] == old(x.rebalanceJoinNodeEpochs[n])) || x.rebalanceJoinNodeEpochs[n] == epoch
+//@   modifies map(string,uint64)
+
+//@ func (*cluster).assignLeftEpochLocked(x, epoch)
+//@   requires tr_wf(x)
+//@   loop 1 invariant keeps: tr_wf(x) && x.node == old(x.node) && x.nodeLeftTimestamps == old(x.nodeLeftTimestamps) && x.rebalanceLeftNodeEpochs == old(x.rebalanceLeftNodeEpochs)
+//@   ensures keeps: tr_wf(x)
+//@   modifies map(string,uint64)
